@@ -620,8 +620,9 @@ def c14_directed_specs(corp, hash_seeds):
     for ci, chunk in enumerate(_chunks(ks, 14)):
         sess([req(e) for e in chunk], "K-pass-%d" % ci)
         # pipelined: later requests are already waiting in the pipe while a helper runs
+        # (delivered in small pieces, so that most of it is still in the pipe - not in the daemon's buffer - then)
         sess([req(e) for e in chunk], "K-pass-%d-pipelined" % ci, client={"mode": "pipelined", "window": 6, "eager_end": False},
-             thief=[True, False, True, True, False, True])
+             thief=[True, False, True, True, False, True], chunking={"mode": "fixed", "n": 200})
     # the same under helper faults: every fault point meets the daemon at least once, each followed by a fault-free request
     simple = [e for e in ks if e["id"] in ("K/same_call_body0", "K/same_body_args", "K/hash_body", "K/returns_float", "K/prints", "K/two_calls")]
     pts = [p for p in FAULT_POINTS if p["kind"] != "ok"]
